@@ -405,11 +405,19 @@ def eval_monad_shape(a, backend):
     def _a(x): # use numpy's natural shape by replacing all strings with arrays
         x = _normalize_backend_array(x)
         return bknp.asarray([
-            bknp.empty(len(y)) if isinstance(y, str) else (_a(y) if is_list(y) else _normalize_backend_array(y))
+            bknp.empty(len(y)) if (isinstance(y, str) and is_iterable(y)) else (_a(y) if is_list(y) else _normalize_backend_array(y))
             for y in x
         ])
     a = _normalize_backend_array(a)
-    return 0 if is_atom(a) else bknp.asarray([len(a)]) if isinstance(a, str) else bknp.asarray(_a(a).shape)
+    if is_atom(a):
+        return 0
+    if isinstance(a, str):
+        return bknp.asarray([len(a)])
+    try:
+        return bknp.asarray(_a(a).shape)
+    except ValueError:
+        # a list of lists of unequal length (or of mixed members) is a vector
+        return bknp.asarray([len(a)])
 
 
 def eval_monad_size(a, backend):
